@@ -23,6 +23,7 @@ def parseOut (s : String) : Option Out :=
   | "f" => some (.failed false) | "fp" => some (.failed true)
   | "n" => some .nil | "b" => some .busy | "c" => some .crashed
   | "E" => some .empty | "d" => some .delErr | "r" => some .restarted | "PANIC" => some .panic
+  | "z" => some .nil
   | _ =>
     if s.startsWith "v" then
       let body := (s.drop 1).toString
@@ -40,13 +41,46 @@ def normalize (line : String) : List String :=
   | ["ppool", sz, _, steps] => ["pool", sz, steps]
   | l => l
 
+/-- a script token: a model op, or the scheduler pause / resume of this process lifetime. While
+    generation is paused the generator goroutine does not exist: generate steps do nothing (`b`). -/
+inductive Tok where
+  | op (o : Op) | pause | resume
+
+def parseTok (s : String) : Option Tok :=
+  if s = "ps" then some .pause else if s = "pr" then some .resume else (parseOp s).map .op
+
+def isGen : Op → Bool
+  | .gen | .genFail | .genFailWrote | .genNil | .genCrash | .genTorn => true
+  | _ => false
+
+/-- does the op end with a restart (a new process: generation is running again)? -/
+def restarts (o : Op) (out : Out) : Bool :=
+  match o with
+  | .restart | .restartFail => true
+  | _ => out == .crashed
+
+def runToks (fixed : Bool) : St → Bool → List Tok → List String × List Nat × St
+  | s, _, [] => ([], [], s)
+  | s, paused, t :: rest =>
+    let (s', out, paused') : St × String × Bool :=
+      match t with
+      | .pause => if paused then (s, "z", true) else ((step fixed s .pause).1, "z", true)
+      | .resume => (s, "z", false)
+      | .op o =>
+        if paused && isGen o then (s, "b", true) else
+        let (s1, r) := step fixed s o
+        (s1, showOut r, paused && !restarts o r)
+    if s'.dead then ([out], [], s') else
+    let (outs, cnts, sf) := runToks fixed s' paused' rest
+    (out :: outs, s'.pool.length :: cnts, sf)
+
 def model (line : String) : String :=
   match normalize line with
   | ["pool", sz, steps] =>
-    match sz.toNat?, (splitList steps).mapM parseOp with
-    | some size, some ops =>
-      let (sf, outs, cnts) := run Gen.C39.returnsOnSaveError size ops
-      s!"outs={showList (outs.map showOut)} counts={showList cnts} disk={showList sf.disk}"
+    match sz.toNat?, (splitList steps).mapM parseTok with
+    | some size, some toks =>
+      let (outs, cnts, sf) := runToks Gen.C39.returnsOnSaveError (init size) false toks
+      s!"outs={showList outs} counts={showList cnts} disk={showList sf.disk}"
     | _, _ => "bad-op"
   | _ => "bad-op"
 
